@@ -447,4 +447,43 @@ theorem prefix_consistent {σ ρ : Type} (invs : Nat → Inv σ ρ) (hp : Reader
     c.shared = (seqRun invs s0 (c.log.reverse.map (·.1))).1 :=
   (simInv_steps invs hp s0 _ c es (simInv_init invs s0) hs).quiet hq
 
+/-! ### non-vacuity -/
+
+/-- non-vacuity: an invocation with a one-step body can run alone from the initial
+    configuration (acquire, step, release) and ends with nobody inside -/
+theorem solo_one {σ ρ : Type} (invs : Nat → Inv σ ρ) (i : Nat) (f : σ → ρ → σ × ρ)
+    (hbody : (invs i).body = [f]) (hmode : (invs i).mode ≠ .none) (s0 : σ) :
+    ∃ c, Steps invs (Cfg.init s0) [.acq i, .step i, .rel i] c ∧ (∀ j, c.fl j = none) ∧
+      c.log = [(i, (f s0 (invs i).init).2)] ∧ c.shared = (f s0 (invs i).init).1 := by
+  let l0 := (invs i).init
+  let r := f s0 l0
+  let c1 : Cfg σ ρ := ⟨s0, upd (fun _ => none) i (some (0, l0)), []⟩
+  let c2 : Cfg σ ρ := ⟨r.1, upd c1.fl i (some (0 + 1, r.2)), []⟩
+  let c3 : Cfg σ ρ := ⟨r.1, upd c2.fl i none, [(i, r.2)]⟩
+  have h1 : Step invs (Cfg.init s0) (.acq i) c1 :=
+    Step.acq (Cfg.init s0) i rfl hmode (fun _ _ => rfl) (fun j hj => absurd rfl hj)
+  have h2 : Step invs c1 (.step i) c2 :=
+    Step.step c1 i 0 l0 f (by simp [c1]) (by rw [hbody]; rfl)
+  have h3 : Step invs c2 (.rel i) c3 :=
+    Step.rel c2 i (0 + 1) r.2 (by simp [c2]) (by rw [hbody]; rfl)
+  refine ⟨c3, Steps.cons _ _ _ _ _ h1 (Steps.cons _ _ _ _ _ h2 (Steps.cons _ _ _ _ _ h3 (Steps.nil _))), ?_, rfl, rfl⟩
+  intro j
+  by_cases hj : j = i
+  · simp [c3, hj]
+  · simp [c3, c2, c1, upd, hj]
+
+/-- non-vacuity of concurrency: two read-lock holders are inside together -/
+example : ∃ c : Cfg Nat Unit,
+    Steps (fun _ => ({ mode := .rlock, body := [], init := () } : Inv Nat Unit)) (Cfg.init 7)
+      [.acq 0, .acq 1] c ∧ c.fl 0 ≠ none ∧ c.fl 1 ≠ none := by
+  let invs : Nat → Inv Nat Unit := fun _ => { mode := .rlock, body := [], init := () }
+  let c0 : Cfg Nat Unit := Cfg.init 7
+  have h1 : Step invs c0 (.acq 0) { c0 with fl := upd c0.fl 0 (some (0, ())) } :=
+    Step.acq c0 0 rfl (by simp [invs]) (fun h => by simp [invs] at h) (fun j _ => by simp [invs])
+  let c1 : Cfg Nat Unit := { c0 with fl := upd c0.fl 0 (some (0, ())) }
+  have h2 : Step invs c1 (.acq 1) { c1 with fl := upd c1.fl 1 (some (0, ())) } :=
+    Step.acq c1 1 (by simp [c1, upd, c0, Cfg.init]) (by simp [invs]) (fun h => by simp [invs] at h)
+      (fun j _ => by simp [invs])
+  exact ⟨_, Steps.cons _ _ _ _ _ h1 (Steps.cons _ _ _ _ _ h2 (Steps.nil _)), by simp [upd, c1], by simp [upd]⟩
+
 end Gossamer.Monitor
